@@ -178,9 +178,53 @@ def share_version(g, sh):
     return seq, root
 
 
+def multi_share_server_cases(ctx):
+    """Grids SMALLER than N (every server holds several shares) that the read survey covers completely (S <= 2k): servers
+    replaying an older version must not make the read stop before it has heard the servers holding the newest one."""
+    from core import grid as G
+    for i in range(ctx.n(4, 20)):
+        r = ctx.rng("multishare", i)
+        seed = r.getrandbits(30)
+        k, N, S = [(2, 8, 4), (2, 6, 3)][i] if i < 2 else r.choice([(3, 10, 5), (2, 8, 4), (3, 9, 6), (2, 8, 4), (3, 12, 6), (2, 6, 3)])
+        fmt = r.choice(["sdmf", "mdmf"])
+        case = {"seed": seed, "servers": S, "k": k, "N": N, "format": fmt, "scenario": "multi-share-servers"}
+        with G.Grid(num_clients=2, num_servers=S, k=k, n=N, happy=1, seed=seed, timeout=180) as g:
+            node = g.run(g.create_mutable(b"version-1", version=fmt))
+            snap1 = {(sh.server, sh.shnum): g.read_share(sh) for sh in g.find_shares(node.get_uri())}
+            g.run(g.mutable_overwrite(node, b"version-2"))
+            g.run(g.mutable_overwrite(node, b"version-3"))
+            cur = {(sh.server, sh.shnum): sh for sh in g.find_shares(node.get_uri())}
+            servers = sorted(set(srv for (srv, _shn) in cur))
+            r.shuffle(servers)
+            # keep the newest version on just enough servers to be recoverable; everything else replays version 1
+            keep, have = [], set()
+            for srv in servers:
+                if len(have) >= k:
+                    break
+                keep.append(srv)
+                have |= set(shn for (s_, shn) in cur if s_ == srv)
+            stale = [srv for srv in servers if srv not in keep]
+            for (srv, shn), sh in cur.items():
+                if srv in stale and (srv, shn) in snap1:
+                    g.write_share(sh, snap1[(srv, shn)])
+            case["stale_servers"] = sorted(stale)
+            for rd in range(4):
+                out = g.run(g.mutable_read(node.get_uri(), client=rd % 2), outcome=True)
+                ctx.case((seed, "multishare", rd), kind="grid-read-multi-share-servers")
+                if out.status != "ok":
+                    ctx.oracle_fail("read-failed-with-recoverable-version", "read failed (%s) although version 3 is recoverable from reachable shares" % out.error, case=case)
+                elif out.value != b"version-3":
+                    ctx.oracle_fail("read-returned-older-version", "read returned %r while version 3 is recoverable from the %d reachable servers (all of which a "
+                                    "read survey with k=%d asks): servers %r replay version 1" % (out.value, S, k, sorted(stale)), case=case,
+                                    expected="version-3", observed=out.value)
+                else:
+                    ctx.trace(1)
+
+
 def grid_histories(ctx):
     from core import grid as G
     from allmydata.mutable.publish import MutableData
+    multi_share_server_cases(ctx)
     n = ctx.n(6, 60)
     for i in range(n):
         r = ctx.rng("hist", i)
